@@ -475,7 +475,8 @@ class SimStream:
 class SimEnv:
     """world of simulated processes; scripts: list of (stdout, stderr, returncode) taken in spawn order"""
 
-    def __init__(self, sch, scripts, allow_spawn_failure=False):
+    def __init__(self, sch, scripts, allow_spawn_failure=False, allow_term_ignored=True):
+        self.allow_term_ignored = allow_term_ignored
         self.sch = sch
         self.scripts = list(scripts)
         self.procs = []
@@ -524,6 +525,10 @@ class SimEnv:
             def terminate(self):
                 env.sch.point("psutil-terminate")
                 if self.p.state == "running":
+                    if env.allow_term_ignored and env.sch.choose(2, "sigterm") == 1:
+                        # the process ignores / is slow to act on SIGTERM: only kill() ends it (or its own exit later)
+                        env.sch.note(f"term-ignored:{self.p.pid}")
+                        return
                     self.p._exit(-15)
                     env.sch.note(f"terminated:{self.p.pid}")
 
@@ -534,6 +539,10 @@ class SimEnv:
 
             def wait(self, timeout=None):
                 env.sch.point("psutil-wait")
+                if timeout is not None and self.p.state == "running":
+                    # nothing in the model makes a process that survived SIGTERM exit within the grace period
+                    env.sch.note(f"grace-expired:{self.p.pid}")
+                    raise TimeoutExpired(timeout)
                 env.sch.block_until(lambda: self.p.state != "running")
                 return self.p.returncode
 
